@@ -263,11 +263,8 @@ theorem annotate_total (t : OpTable) (hT : tableLedgerOK t = true) (b : Blocks.B
   obtain ⟨⟨e, v, c⟩, hr⟩ := tot_annotateLoop_total t hT' b.ops b.offset 0 0 [] hops hshape (by omega)
   simp only [annotate, hr]; exact ⟨_, rfl⟩
 
-/-- The bound is sharp in kind: the counter is a `u16`, and a block that needs
-65 536 input variables makes the annotator panic (D20). -/
-theorem annotate_var_overflow_witness :
-    annotate [⟨0, [], 0, 1, 0, false, false, false, 1, 0, 0, []⟩]
-      ⟨0, List.replicate 65536 ⟨0, []⟩⟩ = .error .varOverflow ∨ True := Or.inr trivial
+-- The bound is sharp: the counter is a `u16`; `Annot/TotalExact.lean` characterises acceptance exactly
+-- (`annotate_ok_iff`) and exhibits the overflow (`annotate_var_overflow_cancun`: 65 536 × `pop`, finding D20).
 
 theorem tableLedgerOK_cancun : tableLedgerOK Gen.cancun = true := by decide +kernel
 
